@@ -42,6 +42,7 @@ where
         unsafe {
             let cloned_value = match *value {
                 Lazy_::Blackhole(..) => return Err(Error::Message("<<loop>>".into())),
+                Lazy_::Failed(ref msg) => Lazy_::Failed(msg.clone()),
                 Lazy_::Thunk(ref value) => Lazy_::Thunk(deep_cloner.deep_clone(value)?.unrooted()),
                 Lazy_::Value(ref value) => Lazy_::Value(deep_cloner.deep_clone(value)?.unrooted()),
             };
@@ -86,12 +87,14 @@ enum Lazy_ {
     ),
     Thunk(Value),
     Value(Value),
+    /// The thunk was evaluated and failed with this message; every later `force` fails as well
+    Failed(String),
 }
 
 unsafe impl<T> Trace for Lazy<T> {
     impl_trace! { self, gc,
         match &mut *self.value.lock().unwrap() {
-            Lazy_::Blackhole(..) => (),
+            Lazy_::Blackhole(..) | Lazy_::Failed(..) => (),
             Lazy_::Thunk(value) => mark(value, gc),
             Lazy_::Value(value) => mark(value, gc),
         }
@@ -131,12 +134,25 @@ fn force(
             drop(lazy_lock);
             let vm = vm.root_thread();
             Either::Right(Either::Left(async move {
+                // A failed evaluation must not leave the `Blackhole` behind: the thunk is gone so
+                // nothing would ever fill the value in and forcing from another thread would wait
+                // forever. Store the failure and wake any waiters instead.
+                let fail = |msg: String| {
+                    let mut lazy_lock = lazy.value.lock().unwrap();
+                    if let Lazy_::Blackhole(_, ref mut x) = *lazy_lock {
+                        if let Some((sender, _receiver)) = x.take() {
+                            let _ = sender.send(());
+                        }
+                    }
+                    *lazy_lock = Lazy_::Failed(msg.clone());
+                    RuntimeResult::Panic(msg.into())
+                };
                 match function.call_async(()).await {
                     Ok(value) => {
                         {
                             let value = match lazy.thread.deep_clone_value(&vm, value.get_value()) {
                                 Ok(value) => value,
-                                Err(err) => return RuntimeResult::Panic(err.to_string().into()),
+                                Err(err) => return fail(err.to_string()),
                             };
                             let mut lazy_lock = lazy.value.lock().unwrap();
                             match *lazy_lock {
@@ -155,7 +171,7 @@ fn force(
                         value.vm_push(&mut vm.current_context()).unwrap();
                         RuntimeResult::Return(Pushed::default())
                     }
-                    Err(err) => RuntimeResult::Panic(format!("{}", err).into()),
+                    Err(err) => fail(format!("{}", err)),
                 }
             }))
         }
@@ -177,25 +193,25 @@ fn force(
                 }
                 let ready = opt.as_ref().unwrap().1.clone();
                 let vm = vm.root_thread();
-                Either::Right(Either::Right(
-                    ready
-                        .map(move |_| {
-                            let lazy_lock = lazy.value.lock().unwrap();
-                            match *lazy_lock {
-                                Lazy_::Value(ref value) => {
-                                    vm.current_context().push(value);
-                                    Pushed::default()
-                                }
-                                _ => unreachable!(),
-                            }
-                        })
-                        .map(RuntimeResult::Return),
-                ))
+                Either::Right(Either::Right(ready.map(move |_| {
+                    let lazy_lock = lazy.value.lock().unwrap();
+                    match *lazy_lock {
+                        Lazy_::Value(ref value) => {
+                            vm.current_context().push(value);
+                            RuntimeResult::Return(Pushed::default())
+                        }
+                        Lazy_::Failed(ref msg) => RuntimeResult::Panic(msg.clone().into()),
+                        _ => unreachable!(),
+                    }
+                })))
             }
             Lazy_::Value(ref value) => {
                 vm.current_context().push(value);
                 Either::Left(future::ready(RuntimeResult::Return(Pushed::default())))
             }
+            Lazy_::Failed(ref msg) => Either::Left(future::ready(RuntimeResult::Panic(
+                msg.clone().into(),
+            ))),
             _ => unreachable!(),
         },
     }
